@@ -267,6 +267,7 @@ def run(ctx):
     reqs = []
 
     def submit(inst_raw, brute):
+        ctx.inflight({"instance": {**model_inst(inst_raw), "mode": inst_raw["mode"], "use_positions": True}})
         impl = run_impl(inst_raw)
         inst = reorder(inst_raw, impl["order"])
         ctx.evaluated()
